@@ -10,6 +10,7 @@ pub fn selftest() -> Result<(), String> {
     dd::selftest()?;
     exact::selftest()?;
     linref::selftest()?;
+    crate::gen::alea_selftest()?;
     #[cfg(not(miri))]
     special::selftest()?;
     Ok(())
